@@ -9,7 +9,10 @@ git -C /repo apply "$PATCH" || { echo "patch does not apply"; exit 2; }
 trap 'git -C /repo checkout -- . ; git -C /repo clean -fdq -e target -e Cargo.lock >/dev/null 2>&1' EXIT
 TIER="${TRY_TIER:-quick}"
 for ID in "$@"; do
+  cp "evidence/$ID.json" "/tmp/evidence-$ID.keep" 2>/dev/null
   out=$(VERIF_SEED="${VERIF_SEED:-0}" ./check "$ID" "$TIER" 2>&1); rc=$?
   sig=$(echo "$out" | grep -m3 -E "signature=|BUILD-FAILED|INCONCLUSIVE" | tr '\n' ' ' | cut -c1-240)
   echo "$ID exit=$rc $sig"
+  # the evidence file must describe the unchanged tree: put the previous one back
+  [ -f "/tmp/evidence-$ID.keep" ] && mv "/tmp/evidence-$ID.keep" "evidence/$ID.json"
 done
